@@ -10,7 +10,7 @@ TARGETS = ["ovniemu"]
 LEVEL = "exploration"
 RULE = ("a valid trace (model-guided history over all models, accepted by the reference model, lint-clean) "
         "plus exactly one corruption: truncation of a stream.obs at an offset that is not an event boundary "
-        "(incl. inside the header), swap of two adjacent events with different clocks, alteration of a header "
+        "(incl. inside the header), a cut at an event boundary before the thread's final OHe (incomplete stream with finished metadata), swap of two adjacent events with different clocks, alteration of a header "
         "byte, removal/alteration of a mandatory metadata key (version, ovni.part, tid, pid, loom, finished, "
         "require, lib.version; app_id / loom_cpus removed from all carriers), unparsable JSON, an incompatible "
         "required version, an event of a model nobody requires, an unregistered model letter, an unknown code "
@@ -19,9 +19,9 @@ RULE = ("a valid trace (model-guided history over all models, accepted by the re
         "exits 1, no signal, never prints 'emulation finished ok'.  Non-trivial = base has >= 2 streams or a "
         "non-ovni model; distinct = (base, corruption).")
 ASSUMPTIONS = ["the base trace is judged valid by the reference model (which C04-C08 compare with the emulator)",
-               "retyping ovni.part to another part type is not asserted (such streams are documented as ignored)"]
+               "every stream of a base trace carries events (a stream retyped to another part is therefore not ignorable)"]
 
-KINDS = ["truncate", "truncate", "truncate-page", "swap", "header", "meta", "meta", "badjson", "version", "notrequired",
+KINDS = ["truncate", "truncate", "truncate-boundary", "truncate-page", "swap", "header", "meta", "meta", "badjson", "version", "notrequired",
          "badmodel", "unknowncode", "payload", "payload", "nonjumbo", "nonjumbo-after-jumbo"]
 
 
@@ -52,7 +52,9 @@ META_OPS = [("del", "version"), ("set", "version", 2), ("set", "version", 4), ("
             ("del", "ovni.part"), ("del", "ovni.tid"), ("set", "ovni.tid", 0), ("del", "ovni.pid"), ("set", "ovni.pid", 0),
             ("del", "ovni.loom"), ("del", "ovni.finished"), ("set", "ovni.finished", 0), ("del", "ovni.require"),
             ("del", "ovni.lib.version"), ("del", "ovni.lib.commit"), ("del", "ovni.lib"),
-            ("delall", "app_id"), ("delall", "loom_cpus"), ("del", "ovni"), ("set", "ovni.loom", "a/b")]
+            ("delall", "app_id"), ("delall", "loom_cpus"), ("del", "ovni"), ("set", "ovni.loom", "a/b"),
+            # a stream that carries events but is declared as another kind of part
+            ("set", "ovni.part", "cpu"), ("set", "ovni.part", "proc"), ("set", "ovni.part", "")]
 
 PAYLOAD_OPS = {  # mcv -> list of replacement payload sizes that the handler must refuse
     "OHx": [0, 2, 3], "OAs": [0, 2, 8, 16], "OAr": [0, 4, 12], "OM=": [0, 8, 16], "OM[": [0, 8, 16], "OM]": [0, 4, 16],
@@ -93,6 +95,17 @@ def corrupt(case):
         off = offs[b % len(offs)]
         s["raw_obs_hex"] = data[:off].hex()
         return base, "truncate stream %d at %d of %d" % (si, off, len(data))
+    if kind == "truncate-boundary":
+        # cut exactly at an event boundary before the thread's final OHe (or right after
+        # the header): structurally fine but incomplete, although the metadata says finished
+        dec = obs.decode_stream(data)
+        idx = [i for i, e in enumerate(dec) if e.mcv == "OHe"]
+        if not idx:
+            return None
+        cuts = [8] + [e.offset for e in dec[1:idx[-1] + 1]]
+        off = cuts[b % len(cuts)]
+        s["raw_obs_hex"] = data[:off].hex()
+        return base, "stream %d cut at the event boundary %d (before its final OHe)" % (si, off)
     if kind == "truncate-page":
         # pad with bursts so that the trailing event starts within 12 bytes of a
         # page boundary, then cut the file exactly at that boundary
